@@ -267,7 +267,8 @@ impl Inner {
             asyn,
             dial,
         );
-        let (fwd_tx, fwd_rx) = channel(2 * crate::DEFAULT_CHANNEL_SIZE);
+        // (large: with the protocol loop held back, forwarded commands wait here)
+        let (fwd_tx, fwd_rx) = channel(1 << 22);
         let user_rx = std::mem::replace(&mut config.command_rx, fwd_rx);
         let exec = Arc::new(Collect::default());
         let notif =
